@@ -30,23 +30,23 @@ func init() {
 
 // plainExempt: (function, field) -> reason for a non-atomic access to an otherwise atomic field.
 var plainExempt = map[string]string{
-	"(*FDOperator).reset|FDOperator.detached":            "token-ordered: reset runs in freeable() after unused() obtained the slot from any in-flight dispatch; the slot is not registered",
-	"(*UnsafeLinkBuffer).Slice|UnsafeLinkBuffer.length":  "fresh object: the Slice reader is not yet visible to anyone else",
+	"(*FDOperator).reset|FDOperator.detached":                 "token-ordered: reset runs in freeable() after unused() obtained the slot from any in-flight dispatch; the slot is not registered",
+	"(*UnsafeLinkBuffer).Slice|UnsafeLinkBuffer.length":       "fresh object: the Slice reader is not yet visible to anyone else",
 	"(*UnsafeLinkBuffer).WriteBuffer|UnsafeLinkBuffer.length": "donor reset: the appended buffer must not be used any more (documented), single owner",
-	"(*connection).init|connection.state":                "pre-publication: the connection is not registered with a poller yet",
-	"(*UnsafeLinkBuffer).MallocAck|linkBufferNode.refer": "writer-private: only nodes behind the write cursor (never flushed, never sliced) are reset",
-	"newLinkBufferNode|linkBufferNode.refer":             "fresh object taken from the pool",
-	"init$|linkBufferNode.refer":                         "pool constructor literal",
-	"(*manager).Close|manager.numLoops":                  "contract: Close is not concurrent with Pick / SetNumLoops",
-	"mux.NewShardQueue|ShardQueue.locks":                 "constructor",
+	"(*connection).init|connection.state":                     "pre-publication: the connection is not registered with a poller yet",
+	"(*UnsafeLinkBuffer).MallocAck|linkBufferNode.refer":      "writer-private: only nodes behind the write cursor (never flushed, never sliced) are reset",
+	"newLinkBufferNode|linkBufferNode.refer":                  "fresh object taken from the pool",
+	"init$|linkBufferNode.refer":                              "pool constructor literal",
+	"(*manager).Close|manager.numLoops":                       "contract: Close is not concurrent with Pick / SetNumLoops",
+	"mux.NewShardQueue|ShardQueue.locks":                      "constructor",
 	// whole-struct copies
-	"(*connection).initNetFD|netFD.closed":   "pre-publication copy of the dialled/accepted netFD into the new connection",
-	"(*server).Run|FDOperator.state":         "listener slot literal assigned before registration",
-	"(*server).Run|FDOperator.detached":      "listener slot literal assigned before registration",
-	"(*connection).initNetFD|netFD(copy)":    "pre-publication copy",
-	"(*server).Run|FDOperator(copy)":         "listener slot literal assigned before registration",
-	"mux.NewShardQueue|queueTrigger(copy)":   "constructor",
-	"mux.NewShardQueue|ShardQueue(copy)":     "constructor",
+	"(*connection).initNetFD|netFD.closed": "pre-publication copy of the dialled/accepted netFD into the new connection",
+	"(*server).Run|FDOperator.state":       "listener slot literal assigned before registration",
+	"(*server).Run|FDOperator.detached":    "listener slot literal assigned before registration",
+	"(*connection).initNetFD|netFD(copy)":  "pre-publication copy",
+	"(*server).Run|FDOperator(copy)":       "listener slot literal assigned before registration",
+	"mux.NewShardQueue|queueTrigger(copy)": "constructor",
+	"mux.NewShardQueue|ShardQueue(copy)":   "constructor",
 }
 
 func exemptReason(fnName, field string) string {
